@@ -1,7 +1,7 @@
-\* thorough instance 4: read / merge clauses (state and action form), both domains, offsets -1..2
+\* thorough instance 4: read / merge clauses (state and action form), both domains, offsets -1..1
 CONSTANTS
   NegOff = 1
-  OffHi = 2
+  OffHi = 1
   Sizes = {1, 2}
   Doms = {"flat", "flagged"}
   NVals = 1
